@@ -110,7 +110,20 @@ func (b *Builder) EnumProgram(o EnumOpts) []EnumInfo {
 				}
 			}
 		default:
-			switch b.draw(8, "enum-member-mode") {
+			switch b.draw(9, "enum-member-mode") {
+			case 8: // explicit map wins over a transformer / identical-name candidate that also exists
+				twin := name("t", mem)
+				tv := enumLit(kt, 100+i)
+				ct = append(ct, spec.Const{Name: twin, Value: tv})
+				tvals[twin] = tv
+				byName++
+				other := name("t", mem+"Mapped")
+				ov := enumLit(kt, 150+i)
+				ct = append(ct, spec.Const{Name: other, Value: ov})
+				tvals[other] = ov
+				m.EnumMap[sname] = other
+				doc = append(doc, fmt.Sprintf("enum:map %s %s", sname, other))
+				b.label("enum:map-beats-transformer")
 			case 0: // renamed target, explicit map
 				tname := name("t", mem+"X")
 				tv := enumLit(kt, 100+i)
